@@ -48,6 +48,14 @@ def stress_alias_locals(ctx, x, y):
     return ctx(result)
 
 
+def stress_signed_zero(ctx, x):
+    # both zeros, each used more than once and none bound to a local name, so that the printers
+    # have to invent variable names for them
+    nz = ctx.constant(-0.0, x)
+    r = ctx.select(x < 0.0, nz, ctx.constant(0.0, x)) + ctx.constant(-0.0, x) * x
+    return r + ctx.constant(0.0, x) * x
+
+
 def stress_shadow(ctx, x):
     # local names chosen to collide with names that library algorithms use internally
     one = ctx.constant(1, x)
@@ -70,6 +78,7 @@ STRESS = {
     "stress_shadow": (stress_shadow, 1),
     "stress_hypot_user": (stress_hypot_user, 2),
     "stress_alias_locals": (stress_alias_locals, 2),
+    "stress_signed_zero": (stress_signed_zero, 1),
 }
 STRESS_SIGS = {
     "python": [":float"],
